@@ -79,6 +79,14 @@ CHECKS = {
             "forced at each ordinal 1..A, at every odd ordinal, at every allocation; JIT on/off. The sentinel values must read back unchanged and no access may touch a reclaimed slot.",
             "Trusted: hook H4 (forced collections use the call site's real roots and skip heap growth); host-rooted values and TLS are not in the grammar yet.",
             "DESIGN.md §3 C04"),
+    "C09": ("exploration",
+            "exhaustive enumeration of tail-loop shapes (call kind x tail context x parameter list x extras) on the real engine with a per-iteration stack-depth invariant, an iteration-count ladder for memory, and a depth ladder for non-tail recursion",
+            "Every loop shape of the grammar (7 call kinds x 16 tail contexts x 4 parameter lists x extras, plus special shapes: do, named let, while, CPS, handler tails, "
+            "closure loops) runs 1500 (thorough 20000) iterations with a probe at every call site: after the first 8 visits of a site the (operand stack, frame stack, "
+            "native depth) triple may never exceed the early maximum; the loop result equals the closed form; 9 probe-free shapes are run at 10^3 and 10^6 (10^7) "
+            "iterations and compared on peak RSS; non-tail recursion at depth 10^4..10^6 must end with a value or an error value. JIT on and off.",
+            "Trusted: hook H5 (#%verif-stack-depth). Iteration counts between the rungs rely on the per-iteration invariant.",
+            "DESIGN.md §3 C09"),
 }
 
 NOT_YET = {}
